@@ -550,8 +550,7 @@ impl Exec {
         out.push((plist("syn", [from.to_string()]), p_msg(&syn)));
         // C12: a SYN never mentions a member scheduled for deletion
         {
-            let _g = self.rt.enter();
-            let sched: Vec<ChitchatId> = self.nodes.get(&from)?.cc.scheduled_for_deletion_nodes().cloned().collect();
+            let sched: Vec<ChitchatId> = self.quarantined(from);
             if let PMsg::Syn { digest, .. } = &syn {
                 if digest.iter().any(|e| sched.contains(&e.chitchat_id)) {
                     self.monitor_hit("C12", "quarantine", "a SYN mentions a member the sender has seen dead for more than half the grace period");
@@ -1141,6 +1140,22 @@ impl Exec {
             }
         }
         false
+    }
+
+    /// Members a node must no longer mention: found dead at every evaluation for more than half
+    /// the grace period, by the harness's own record (plus whatever the detector itself says).
+    fn quarantined(&self, slot: u64) -> Vec<ChitchatId> {
+        let now = self.now_ticks();
+        let Some(ctx) = self.nodes.get(&slot) else { return Vec::new() };
+        let _g = self.rt.enter();
+        let mut q: Vec<ChitchatId> = ctx.cc.scheduled_for_deletion_nodes().cloned().collect();
+        let dead: Vec<ChitchatId> = ctx.cc.dead_nodes().cloned().collect();
+        for (id, since) in &ctx.dead_since {
+            if 2 * (now - since) > ctx.dead_grace && !q.contains(id) && dead.contains(id) {
+                q.push(id.clone());
+            }
+        }
+        q
     }
 
     /// Heartbeats of all copies held by a node.
@@ -2660,10 +2675,7 @@ impl Exec {
                         PMsg::Syn { digest, .. } => (Some(digest), None),
                         PMsg::BadCluster => (None, None),
                     };
-                    let sched: Vec<ChitchatId> = {
-                        let _g = self.rt.enter();
-                        self.nodes.get(&slot)?.cc.scheduled_for_deletion_nodes().cloned().collect()
-                    };
+                    let sched: Vec<ChitchatId> = self.quarantined(slot);
                     let mut mentioned: Vec<&ChitchatId> = Vec::new();
                     if let Some(d) = rdigest {
                         mentioned.extend(d.iter().map(|e| &e.chitchat_id));
